@@ -156,6 +156,19 @@ def shard(args):
             if st2 == "bad":
                 part.violation(sig2 + " [from_components]", {"kind": "c08", "country": country,
                                "values": vals, "via": "components"}, exp2, obs2)
+    # value relationships between the arguments: the same text for every component, the account equal
+    # to the bank code, the branch equal to the bank code
+    aw = gen.width(c, "account_code")
+    same_rows = []
+    for x in ("1", "12", mb[2] if bw else "7", conforming(c, "bank_code", max(1, min(bw or 1, aw or 1, rw or bw or 1)), 5)):
+        same_rows += [(x, x, x if rw else ""), (x, x, ""), (x, ma[2] if aw else "", x if rw else "")]
+    for b, a, r in dict.fromkeys(same_rows):
+        vals = {"bank_code": b, "account_code": a, "branch_code": r}
+        part.count((country, "equal-values", b, a, r))
+        st, sig, exp, obs = judge(country, vals, "generate")
+        if st == "bad":
+            part.violation(sig + " [equal argument values]", {"kind": "c08", "country": country, "values": vals,
+                                                             "via": "generate"}, exp, obs)
     # remaining component kinds, one at a time, other fields exact width
     good = {"bank_code": mb[2] if bw else "", "account_code": ma[2],
             "branch_code": (mr[2] if rw else "")}
